@@ -58,10 +58,12 @@ func (v *validCommon) initValid2FieldsMap(data *name2Value) {
 	if v.valid2FieldsMap == nil {
 		v.valid2FieldsMap = make(map[string][]*name2Value, 5)
 	}
-	if _, ok := v.valid2FieldsMap[data.validName]; !ok {
-		v.valid2FieldsMap[data.validName] = make([]*name2Value, 0, 2)
+	// 同一个对象内的字段才为一组, 所以 key 需要带上对象名(如: 切片中的每个元素/嵌套对象分别验证)
+	key := data.objName + "|" + data.validName
+	if _, ok := v.valid2FieldsMap[key]; !ok {
+		v.valid2FieldsMap[key] = make([]*name2Value, 0, 2)
 	}
-	v.valid2FieldsMap[data.validName] = append(v.valid2FieldsMap[data.validName], data)
+	v.valid2FieldsMap[key] = append(v.valid2FieldsMap[key], data)
 }
 
 // requiredMissing 验证规则中标记了 required, 但输入(map/url)中不存在的 key
@@ -162,8 +164,11 @@ func (v *validCommon) valid(errBuf *strings.Builder) {
 		return
 	}
 
-	for validName, fieldInfos := range v.valid2FieldsMap {
-		validKey, _, _ := ParseValidNameKV(validName)
+	for _, fieldInfos := range v.valid2FieldsMap {
+		if len(fieldInfos) == 0 {
+			continue
+		}
+		validKey, _, _ := ParseValidNameKV(fieldInfos[0].validName)
 		switch validKey {
 		case Either:
 			v.either(errBuf, fieldInfos)
